@@ -38,6 +38,7 @@ import (
 	"time"
 
 	"go.mongodb.org/mongo-driver/bson"
+	"go.mongodb.org/mongo-driver/bson/primitive"
 	"go.mongodb.org/mongo-driver/mongo"
 	"go.mongodb.org/mongo-driver/mongo/options"
 
@@ -442,7 +443,29 @@ func runFail(dir string, n int, seed int64, k int, after bool, mode string) (fc 
 	for c := 1; c <= n; c++ {
 		before := fs.calls
 		var cerr error
-		if mode == "session" {
+		if mode == "expire" {
+			// commits made by TTL expiry passes (Transaction.Expire on a locked transaction, as the background loop does),
+			// between commits that create the TTL index and insert documents that are already expired
+			tc := client.Database("app").Collection("ttl")
+			switch {
+			case c == 1:
+				_, cerr = tc.Indexes().CreateOne(context.Background(), mongo.IndexModel{Keys: bson.D{{Key: "at", Value: int32(1)}}, Options: options.Index().SetExpireAfterSeconds(1)})
+			case c%2 == 0:
+				_, cerr = tc.InsertMany(context.Background(), []interface{}{
+					bson.D{{Key: "_id", Value: int32(c)}, {Key: "at", Value: primitive.NewDateTimeFromTime(time.Now().Add(-time.Hour))}},
+					bson.D{{Key: "_id", Value: int32(1000 + c)}, {Key: "at", Value: primitive.NewDateTimeFromTime(time.Now().Add(time.Hour))}}})
+			default:
+				txn, err := engine.Begin(context.Background(), true)
+				if err != nil {
+					cerr = err
+				} else if err = txn.Expire(); err != nil {
+					engine.Abort(txn)
+					cerr = err
+				} else {
+					cerr = engine.Commit(txn)
+				}
+			}
+		} else if mode == "session" {
 			_ = client.UseSession(context.Background(), func(sc lungo.ISessionContext) error {
 				if err := sc.StartTransaction(); err != nil {
 					cerr = err
@@ -509,7 +532,7 @@ func runFail(dir string, n int, seed int64, k int, after bool, mode string) (fc 
 func failstore(dir string, n int, seed int64) {
 	out := json.NewEncoder(os.Stdout)
 	total := 0
-	for _, mode := range []string{"session", "auto"} {
+	for _, mode := range []string{"session", "auto", "expire"} {
 		// k = 0 never fails: counts the Store calls of the history
 		_, calls := runFail(dir, n, seed, 0, false, mode)
 		for k := 1; k <= calls; k++ {
